@@ -128,8 +128,11 @@ func (k *checker) runCase(e *env, slot int, stream string, idx int, st *stateKin
 		return map[string]interface{}{"state": st.name, "program": st.program, "breakpoint_line": st.breakAt, "breakonstart": st.onStart}
 	}
 	if why != "" {
+		d := base()
+		d["dbg.beforewait_events"] = atomic.LoadInt64(&cs.before)
+		d["dbg.resumed_events"] = atomic.LoadInt64(&cs.resumed)
 		cs.release(e)
-		c.Inconclusive("debugger state not reached: "+why, stream, idx, base())
+		c.Inconclusive("debugger state not reached: "+why, stream, idx, d)
 		return
 	}
 	c.Event("state."+st.name, 1)
